@@ -342,11 +342,19 @@ class BaseTemplate:
         # directly followed by the class name, different (body, class)
         # pairs could spell the same bytes.
         sha.update(class_name + b'\0')
+
+        filename = str(self.filename)
+        has_filename = bool(filename) and filename != BaseTemplate.filename
+        if has_filename:
+            # The file name is compiled into the module (it is what
+            # error reports show), and the module's own name below
+            # has it without the extension only.
+            sha.update(filename.encode('utf-8', 'surrogatepass') + b'\0')
+
         sha.update(body.encode('utf-8', 'surrogatepass'))
         digest = sha.hexdigest()
 
-        filename = str(self.filename)
-        if filename and filename != BaseTemplate.filename:
+        if has_filename:
             digest = os.path.splitext(filename)[0] + '-' + digest
 
         return digest
